@@ -357,9 +357,19 @@ fn table_level(ctx: &Ctx) {
         },
     );
     ctx.subspace("table level: proptest histories to length 120 with the strict learning rule", n as u64, false);
+
+    // coverage-guided search over the same histories (libFuzzer target hist_c13: bytes -> operations -> this oracle);
+    // the committed corpus is replayed in-process in every tier, the campaign runs in the thorough tier
+    crate::targets::replay_corpus(ctx, "hist_c13");
+    if std::env::var("VCHECK_FUZZ").is_ok() && !ctx.quick() {
+        crate::fuzzdrv::run_campaign_par(ctx, "hist_c13", 96000, 16, 80);
+    }
 }
 
 pub fn replay(ctx: &Ctx, case: &Value) {
+    if crate::fuzzdrv::replay(ctx, case) {
+        return;
+    }
     if case["kind"].as_str() == Some("table") {
         if let Ok(c) = serde_json::from_value::<crate::props::c11::TableCase>(case["case"].clone()) {
             let v = crate::props::c11::run_table_case(ctx, &c);
